@@ -28,7 +28,7 @@ PROBES = {
             'event-form-single', 'event-form-multi', 'event-form-data', 'two-events-one-chunk',
             'segmented-delivery'],
     'C03': ['cut-mid-line', 'cut-mid-data-block', 'cut-during-auth', 'cut-with>=3-queued', 'cut-idle',
-            'post-loss-submissions>=2', 'submit-from-disconnect-observer', 'when-disconnected-before', 'when-disconnected-after', 'cut-clean',
+            'post-loss-submissions>=2', 'submit-from-disconnect-observer', 'retry-from-errback-at-loss', 'when-disconnected-before', 'when-disconnected-after', 'cut-clean',
             'cut-unclean', 'fault:connection-cut'],
 }
 
@@ -340,6 +340,12 @@ class CtlRun(object):
                 if self.submitted < self.n_cmds + 4:
                     sim.probe('reentrant-submit')
                     self.op_submit(reentrant_from=c.idx)
+        elif c.follow and self.cut_done and not ok and not c.post_loss:
+            # the retry pattern: the errback of a command that the loss failed submits again, re-entrantly
+            n, c.follow = c.follow, 0
+            for _ in range(n):
+                sim.probe('retry-from-errback-at-loss')
+                self.op_submit(reentrant_from=c.idx, post_loss=True)
         return None
 
     # ----------------------------------------------------------- C01 step oracle
